@@ -230,6 +230,9 @@ func leaves() []leaf {
 			Decl: "type EIo§ int\n\nconst (\n\tEIo§Zero EIo§ = iota\n\tEIo§One\n\tEIo§Two\n)\n"},
 		{Name: "alias-typedef", Go: "TS§", Kinds: []string{"$ref:TS§", "string"}, Decl: "type TS§ string\n", Comp: "TS§", Exp: &ExpSchema{Kind: "alias", Base: "string"}},
 		{Name: "alias-typedef-int", Go: "TI§", Kinds: []string{"$ref:TI§", "integer"}, Decl: "type TI§ int\n", Comp: "TI§", Exp: &ExpSchema{Kind: "alias", Base: "integer"}},
+		// an assigned alias of a primitive next to constants of that primitive type which have nothing to do with it
+		{Name: "alias-assigned-int-beside-unrelated-constants", Go: "AI§", Kinds: []string{"$ref:AI§", "integer"}, Decl: "type AI§ = int\n\nconst Unrelated§ int = 7\n\nconst (\n\tOtherA§ int = 1\n\tOtherB§ int = 2\n)\n", Comp: "AI§", Exp: &ExpSchema{Kind: "alias", Base: "integer"}},
+		{Name: "alias-assigned-string-beside-unrelated-constants", Go: "ASu§", Kinds: []string{"$ref:ASu§", "string"}, Decl: "type ASu§ = string\n\nconst Greeting§ string = \"hello\"\n", Comp: "ASu§", Exp: &ExpSchema{Kind: "alias", Base: "string"}},
 		{Name: "alias-assigned", Go: "AS§", Kinds: []string{"$ref:AS§", "string"}, Decl: "type AS§ = string\n", Comp: "AS§", Exp: &ExpSchema{Kind: "alias", Base: "string"}},
 	}
 }
